@@ -129,8 +129,54 @@ let fmt_uout = function
   | OBool b -> if b then "1" else "0"
   | OList l -> fmt_pairs l
 
+(* ---------- sync cache ---------- *)
+let fmt_sstate (s : sstate) : string =
+  let classes : n list ref = ref [] in
+  let class_of (i : n) : int =
+    let rec go j = function
+      | [] -> classes := !classes @ [ i ]; j
+      | x :: r -> if N.eqb x i then j else go (j + 1) r
+    in
+    go 0 !classes
+  in
+  let entries = List.sort (fun (a, _) (b, _) -> n_cmp a b) (s_map_list s) in
+  let es = List.map (fun (k, ve) ->
+      let e = get_ve s ve in
+      let i = get_info s e.sv_info in
+      Printf.sprintf "%s:%s:%s:%s:%s:%d:%d:%s:%s:%d" (string_of_n k) (string_of_n e.sv_val)
+        (string_of_n i.si_weight) (string_of_n i.si_la) (string_of_n i.si_lm)
+        (if i.si_admitted then 1 else 0) (if i.si_dirty then 1 else 0)
+        (pos_in s.s_prob i.si_ao) (pos_in s.s_wo i.si_wo) (class_of e.sv_info)) entries in
+  let ps = List.map (fun (_, nd) ->
+      Printf.sprintf "%s:%s:%d" (string_of_n nd.sa_key) (string_of_n nd.sa_hash) (class_of nd.sa_info)) s.s_prob in
+  let ws = List.map (fun (_, nd) -> Printf.sprintf "%s:%d" (string_of_n nd.sw_key) (class_of nd.sw_info)) s.s_wo in
+  Printf.sprintf "ec=%s ws=%s skon=%d va=%s rq=%d wq=%d sa=%s run=0 map=[%s] prob=[%s] wo=[%s] %s walk=ok live=%d"
+    (string_of_n s.s_ec) (string_of_n s.s_ws) (if s.s_skon then 1 else 0) (opt_n s.s_va)
+    (List.length s.s_rq) (List.length s.s_wq) (string_of_n s.s_sync_after)
+    (String.concat "," es) (String.concat "," ps) (String.concat "," ws) (fmt_sketch s.s_sk)
+    (List.length (live_ves s))
+
+let parse_sop toks : sop =
+  match toks with
+  | [ "I"; k; v ] -> SInsert (n_of_string k, n_of_string v)
+  | [ "G"; k ] -> SGet (n_of_string k)
+  | [ "C"; k ] -> SContains (n_of_string k)
+  | [ "T" ] -> SIter
+  | [ "X"; k ] -> SInvalidate (n_of_string k)
+  | [ "A" ] -> SInvalidateAll
+  | [ "S" ] -> SSync
+  | [ "D"; d ] -> SAdvance (n_of_string d)
+  | _ -> failwith ("bad sync op: " ^ String.concat " " toks)
+
+let fmt_sout = function
+  | SONone -> "-"
+  | SOVal v -> opt_n v
+  | SOBool b -> if b then "1" else "0"
+  | SOList l -> fmt_pairs l
+
 type mode =
   | MNone
+  | MSync of scfg * srun
   | MSketch of sketch
   | MUnsync of ucfg * urun
   | MDead  (* the model returned Err: the rest of the case is skipped *)
@@ -166,6 +212,13 @@ let process (ic : in_channel) =
                | None -> (s, "")) kvs in
            (match List.assoc_opt "kind" kv with
             | Some "sketch" -> mode := MSketch sk_empty
+            | Some "sync" ->
+              let c = { sc_cap = opt_of_string (assoc_def "cap" kv "none");
+                        sc_ttl = opt_of_string (assoc_def "ttl" kv "none");
+                        sc_tti = opt_of_string (assoc_def "tti" kv "none");
+                        sc_wf = weigher_of (parse_weigher (assoc_def "weigher" kv "none"));
+                        sc_hash = hasher_of (parse_hasher (assoc_def "hasher" kv "id")) } in
+              mode := MSync (c, srun_init)
             | Some "unsync" ->
               let c = { uc_cap = opt_of_string (assoc_def "cap" kv "none");
                         uc_ttl = opt_of_string (assoc_def "ttl" kv "none");
@@ -179,6 +232,17 @@ let process (ic : in_channel) =
            (match !mode with
             | MNone -> failwith "operation before cfg"
             | MDead -> ()
+            | MSync (_, _) when toks = [ "DROP" ] ->
+              Printf.printf "%d %s -> - | dropped live=0:0\n" !idx line;
+              mode := MDead
+            | MSync (c, r) ->
+              (match sstep c r (parse_sop toks) with
+               | Ok (r', out) ->
+                 Printf.printf "%d %s -> %s | %s\n" !idx line (fmt_sout out) (fmt_sstate r'.sr_state);
+                 mode := MSync (c, r')
+               | Err e ->
+                 Printf.printf "%d %s -> ERR %s\n" !idx line (string_of_err e);
+                 mode := MDead)
             | MUnsync (_, _) when toks = [ "DROP" ] ->
               Printf.printf "%d %s -> - | dropped live=0:0\n" !idx line;
               mode := MDead
